@@ -25,7 +25,7 @@ def freshBuilder (o : Opts) (g : GSt) : St :=
 def buildMore (w : World) (o : Opts) (g : GSt) (roots : List Spec) (imports : List (Spec × List Dep))
     (fuel : Nat) : Option (GSt × St) :=
   let newRoots := roots.filter fun r => !g.roots.contains r
-  let newImports := imports.filter fun p => !g.importReferrers.contains p.1
+  let newImports := (effImports o imports).filter fun p => !g.importReferrers.contains p.1
   let st := newRoots.foldl (fun st r =>
     load w o 0 { spec := r, range := none, spRef := none, isAsset := false, inDyn := st.inDyn,
                  isRoot := true, attr := none } st) (freshBuilder o g)
